@@ -177,3 +177,85 @@ def emit_decode(methods, hdr, namespace, path, note):
         rows.append(f"({nc(m['method'])}, {names.index(m['type'])}, {'true' if m['mask'] else 'false'}, {nc(m['error'])})")
     f.list_def("decodeMethods", "Nat × Nat × Bool × Nat", rows)
     return write_if_changed(path, f.text())
+
+
+def emit_operands(T, namespace, path, note):
+    """Operand variants, assemble arms, and what parse_operand does per kind, with names resolved to numbers."""
+    from rusttok import TranslateError
+    hdr = T["header"]
+    variants = T["operand_enum"]
+    arms = T["asm_arms"]
+    kinds, _core = T["core"]
+    pk, pfns = T["parse_operand"]
+    dec = {m["method"]: m for m in T["decode"]}
+    en = [e["name"] for e in hdr["enums"]]
+    mk = [m["name"] for m in hdr["masks"]]
+    vnames = [v for v, _ in variants]
+    f = LeanFile(namespace, ["Rspirv.Generic.Grammar"], note)
+    f.raw("open Rspirv")
+    rows = []
+    for v, pay in variants:
+        if pay.startswith("spirv::"):
+            t = pay[7:]
+            if t in mk:
+                rows.append(f"({nc(v)}, 1, {mk.index(t)})")
+            elif t in en:
+                rows.append(f"({nc(v)}, 0, {en.index(t)})")
+            else:
+                raise TranslateError("rspirv/dr/autogen_operand.rs", v, f"unknown payload type {t}")
+        else:
+            rows.append(f"({nc(v)}, {dict(word=2, u32=3, u64=4, op=5, string=6)[pay]}, 0)")
+    f.list_def("operandVariants", "Nat × Nat × Nat", rows)
+    ARM = dict(bits=0, as_u32=1, raw=2, lohi=3, string=4)
+    for v in vnames:
+        if v not in arms:
+            raise TranslateError("rspirv/binary/assemble.rs", v, "Operand variant without an assemble arm")
+    f.list_def("asmArms", "Nat", [str(ARM[arms[v]]) for v in vnames])
+    for v in ("IdRef", "IdScope", "IdMemorySemantics", "LiteralBit32", "LiteralBit64", "LiteralString",
+              "LiteralSpecConstantOpInteger", "LiteralExtInstInteger"):
+        f.raw(f"def v_{v} : Nat := {vnames.index(v)}")
+    opv = {}
+    e = hdr["enum_by_name"]["Op"]
+    opv = dict(e["decl"])
+    for o in ("Constant", "SpecConstant", "Switch", "TypeInt", "TypeFloat", "SpecConstantOp", "ExtInstImport", "ExtInst"):
+        f.raw(f"def op_{o} : Nat := {opv[o]}")
+
+    def elem(item, v, m):
+        if v not in vnames:
+            raise TranslateError("rspirv/binary/autogen_parse_operand.rs", item, f"unknown Operand variant {v}")
+        vi = vnames.index(v)
+        if m in ("id", "bit32", "ext_inst_integer"):
+            return f"⟨{vi}, 2, 0, 0⟩"
+        if m == "string":
+            return f"⟨{vi}, 3, 0, 0⟩"
+        if m not in dec:
+            raise TranslateError("rspirv/binary/autogen_parse_operand.rs", item, f"unknown decoder method {m}")
+        d = dec[m]
+        names = mk if d["mask"] else en
+        return f"⟨{vi}, {1 if d['mask'] else 0}, {names.index(d['type'])}, {nc(d['error'])}⟩"
+
+    acts = []
+    for k in kinds:
+        if k not in pk:
+            raise TranslateError("rspirv/binary/autogen_parse_operand.rs", k, "OperandKind without a parse_operand arm")
+        a = pk[k]
+        if a[0] == "panic":
+            acts.append(".panics")
+        elif a[0] == "elems":
+            acts.append(".elems [" + ", ".join(elem(k, v, m) for v, m in a[1]) + "]")
+        else:
+            (v, m), fn = a[1], a[2]
+            form, ty, rws = pfns[fn]
+            if form == "mask":
+                consts = dict(next(x for x in hdr["masks"] if x["name"] == ty)["consts"])
+                rr = ", ".join(f"({consts[flag]}, [" + ", ".join(elem(fn, vv, mm) for vv, mm in es) + "])" for flag, es in rws)
+                acts.append(f".maskParams {elem(k, v, m)} [{rr}]")
+            else:
+                ee = hdr["enum_by_name"][ty]
+                vals = dict(ee["decl"])
+                for al, tg in ee["aliases"]:
+                    vals[al] = vals[tg]
+                rr = ", ".join(f"({vals[en_]}, [" + ", ".join(elem(fn, vv, mm) for vv, mm in es) + "])" for en_, es in rws)
+                acts.append(f".enumParams {elem(k, v, m)} [{rr}]")
+    f.list_def("kindActs", "KindAct", acts)
+    return write_if_changed(path, f.text())
